@@ -310,8 +310,9 @@ def run_case(case):
             cond_false = (0 < maxsize <= len(left)) if writer else len(left) == 0
             c = cur[t]
             if not (c and c[1] == 'block' and peers_done and cond_false):
-                alarm('C08', 'hang', f'thread {t} stuck in call {c} with deque {left} (maxsize {maxsize}), '
-                                     f'done={done}: {res["deadlock"]}')
+                for prop in ('C08', 'C01'):
+                    alarm(prop, 'hang', f'thread {t} stuck in call {c} with deque {left} (maxsize {maxsize}), '
+                                        f'done={done}: {res["deadlock"]}')
     res['out'] = [appended, taken]
     return res
 
